@@ -208,6 +208,12 @@ fn dec_cases(tier: Tier) -> Vec<DecCase> {
                 }
             }
         }
+        // limits of 4 GiB and more (must not be truncated to 32 bits): small messages are within them
+        for limit in [1usize << 32, (1usize << 32) + 16, 1usize << 33, (1usize << 40) + 3, usize::MAX] {
+            let frames = vec![(0u8, vec![7u8; 5]), (0u8, vec![8u8; 40])];
+            out.push(DecCase { frames: frames.clone(), bare_prefix: None, enc: None, limit: Some(limit), response, fixed: None });
+            out.push(DecCase { frames, bare_prefix: Some(u32::MAX), enc: None, limit: Some(limit), response, fixed: Some(vec![1]) });
+        }
         // the default limit (4 MiB)
         for delta in [-1i64, 0, 1] {
             let l = (MIB4 as i64 + delta) as usize;
@@ -467,7 +473,7 @@ pub fn property(tier: Tier) -> Property {
     let dec = Section::new(
         "decode-limit",
         Config { max_bound: tier.q(1, 2), ..Default::default() },
-        "cases: limit L in {0,1,5,64,default 4 MiB} x a message of wire length L-1/L/L+1 (identity; gzip/deflate/zstd with the limit placed around the compressed length) at position 1/2/3 of a stream, and bare 5-byte prefixes declaring L+1, 2^24, 2^32-1 with nothing after them, x request/response; environment: every chunking with <= bound cuts (incl. the cut right after the prefix) plus drip; oracle: accepted iff wire length <= L, else OUT_OF_RANGE with no chunk requested beyond the one completing the prefix and (declared >= 1 MiB) no allocation >= the declared length (tracking allocator). Non-trivial = some message exactly at or over the limit.",
+        "cases: limit L in {0,1,5,64,default 4 MiB, and 2^32, 2^32+16, 2^33, 2^40+3, usize::MAX with small messages that must be accepted} x a message of wire length L-1/L/L+1 (identity; gzip/deflate/zstd with the limit placed around the compressed length) at position 1/2/3 of a stream, and bare 5-byte prefixes declaring L+1, 2^24, 2^32-1 with nothing after them, x request/response; environment: every chunking with <= bound cuts (incl. the cut right after the prefix) plus drip; oracle: accepted iff wire length <= L, else OUT_OF_RANGE with no chunk requested beyond the one completing the prefix and (declared >= 1 MiB) no allocation >= the declared length (tracking allocator). Non-trivial = some message exactly at or over the limit.",
         dec_cases(tier),
         |c: &DecCase| format!("frames={:?} bare={:?} enc={} limit={:?} response={} fixed={:?}", c.frames.iter().map(|(f, p)| (*f, p.len())).collect::<Vec<_>>(), c.bare_prefix, enc_name(c.enc), c.limit, c.response, c.fixed.as_ref().map(|v| v.len())),
         dec_body,
